@@ -49,6 +49,10 @@ EXPLANATION += " Added: (R10) the text of a LoadError is `message (file:line)` (
 TECHNIQUE += '; premise check of the frozen termination exception on the CFG'
 EXPLANATION += ' R4: the one frozen termination exception (the CP2K basis reader) is only granted while its reason holds on the CFG -- every path from the push-back to the loop head passes the statement that raises for an empty block. R7 counts rows of pre-allocated arrays filled in a counted loop as members of the record group; a member stored on both branches of an `if` is unconditional.'
 # --- end metadata batch 8
+# --- metadata added after the round-2 refactoring twins
+TECHNIQUE += '; evaluation of the exception constructor / renderer (super() of the exception bases modelled)'
+EXPLANATION += " R10: BaseFileError is no longer matched by statement: its constructor and __str__ are interpreted for every kind of file argument and the attributes (filename, lineno) and the rendered text are compared with the expected ones. R6: stores to `.lineno` through tuple targets are seen; `self.lineno` of a class that does not derive from LineIterator is that object's own attribute."
+# --- end metadata round-2 twins
 
 
 def _derives_from(prog, cls, base):
